@@ -1,7 +1,7 @@
 (* Raptor relay: every clause the harness evaluates on traces of the real code
    is true of the model's own trace, for every history. *)
 From Coq Require Import ZArith List Bool Arith Lia ZifyBool.
-From RP Require Import Common.Eqb Relay.Model Relay.Oracle Relay.Lemmas Relay.Proofs.
+From RP Require Import Common.Eqb Relay.Model Relay.Oracle Relay.Lemmas Relay.Proofs Relay.History.
 Import ListNotations.
 Open Scope Z_scope.
 
@@ -28,13 +28,22 @@ Lemma bl_eqb_refl : forall l, bl_eqb l l = true.
 Proof. apply eqb_list_refl. intros [a b]. unfold eqb_prod; simpl. rewrite Z.eqb_refl, zl_eqb_refl. reflexivity. Qed.
 
 Lemma out_eqb_refl : forall o, out_eqb o o = true.
-Proof. intros [q us|q v|v|us|us|n]; simpl; rewrite ?Z.eqb_refl, ?zl_eqb_refl; reflexivity. Qed.
+Proof. intros [q us|q v|v|us|v|us|n]; simpl; rewrite ?Z.eqb_refl, ?zl_eqb_refl; reflexivity. Qed.
 
 Lemma outs_eqb_refl : forall l, outs_eqb l l = true.
 Proof. apply eqb_list_refl. apply out_eqb_refl. Qed.
 
+Lemma set_eqb_refl : forall l, set_eqb l l = true.
+Proof.
+  intros l. unfold set_eqb. assert (forallb (fun x => zmem x l) l = true).
+  { apply forallb_forall. intros x Hx. apply zmem_In. exact Hx. }
+  rewrite H. reflexivity.
+Qed.
+
 Lemma state_eqb_refl : forall s, state_eqb s s = true.
-Proof. intros s. unfold state_eqb. rewrite inq_eqb_refl, qs_eqb_refl, bl_eqb_refl. reflexivity. Qed.
+Proof.
+  intros s. unfold state_eqb. rewrite inq_eqb_refl, qs_eqb_refl, bl_eqb_refl, zl_eqb_refl, set_eqb_refl. reflexivity.
+Qed.
 
 Lemma obs_eqb_refl : forall l, obs_eqb l l = true.
 Proof.
@@ -56,30 +65,42 @@ Proof.
   rewrite t_arr_app, places_split in *. rewrite ended_app. lia.
 Qed.
 
+Lemma gone_after_step : forall s o s' e, step s o = (s', e) -> gone s' = gone_after (gone s) o.
+Proof.
+  intros s o s' e H. destruct o as [b| |n q|n|us]; simpl in H.
+  - injection H as <- <-. reflexivity.
+  - unfold drain in H. destruct (fwd_groups _ _ _ _ _) as [[bl cl] o]. injection H as <- <-. reflexivity.
+  - unfold register in H. destruct (relay_key q n (backlog s)) as [b1 o1].
+    destruct (relay_key q star b1) as [b2 o2]. injection H as <- <-. reflexivity.
+  - unfold unregister in H.
+    destruct (alook n (queues s)); destruct (alook n (backlog s)); injection H as <- <-; reflexivity.
+  - unfold cancel in H. destruct (cancel_walk us (backlog s)) as [bl c]. injection H as <- <-. reflexivity.
+Qed.
+
 Lemma walk_model : forall (c : chk),
-  (forall s arr acc o s' e, good s arr acc -> step s o = (s', e) -> c s arr acc o e s' = true) ->
-  forall ops s arr acc, good s arr acc -> walk c s arr acc ops (trace s ops) = true.
+  (forall s arr acc o s' e, good s arr acc -> step s o = (s', e) -> c (gone s) s arr acc o e s' = true) ->
+  forall ops s arr acc, good s arr acc -> walk c (gone s) s arr acc ops (trace s ops) = true.
 Proof.
   intros c Hc ops; induction ops as [|o ops IH]; intros s arr acc G; simpl; [reflexivity|].
   destruct (step s o) as [s1 o1] eqn:E. simpl.
-  rewrite (Hc _ _ _ _ _ _ G E). simpl. apply IH. eapply good_step; eauto.
+  rewrite (Hc _ _ _ _ _ _ G E). simpl. rewrite <- (gone_after_step _ _ _ _ E). apply IH. eapply good_step; eauto.
 Qed.
 
 (* ---------------- the clauses, one operation ---------------- *)
-Lemma place_ok : forall s arr acc o s' e, good s arr acc -> step s o = (s', e) -> chk_place s arr acc o e s' = true.
+Lemma place_ok : forall s arr acc o s' e, good s arr acc -> step s o = (s', e) -> chk_place (gone s) s arr acc o e s' = true.
 Proof.
   intros s arr acc o s' e G H. destruct (good_step _ _ _ _ _ _ G H) as [_ C].
   unfold chk_place. apply forallb_forall. intros u _. apply Nat.eqb_eq. apply C.
 Qed.
 
-Lemma fwd_once_ok : forall s arr acc o s' e, good s arr acc -> step s o = (s', e) -> chk_fwd_once s arr acc o e s' = true.
+Lemma fwd_once_ok : forall s arr acc o s' e, good s arr acc -> step s o = (s', e) -> chk_fwd_once (gone s) s arr acc o e s' = true.
 Proof.
   intros s arr acc o s' e G H. destruct (good_step _ _ _ _ _ _ G H) as [_ C].
   unfold chk_fwd_once. apply forallb_forall. intros u _. apply Nat.leb_le.
   specialize (C u). unfold places in C. lia.
 Qed.
 
-Lemma final_ok : forall s arr acc o s' e, good s arr acc -> step s o = (s', e) -> chk_final s arr acc o e s' = true.
+Lemma final_ok : forall s arr acc o s' e, good s arr acc -> step s o = (s', e) -> chk_final (gone s) s arr acc o e s' = true.
 Proof.
   intros s arr acc o s' e G H. destruct (good_step _ _ _ _ _ _ G H) as [_ C].
   unfold chk_final. apply forallb_forall. intros u _. specialize (C u). unfold places in C.
@@ -91,32 +112,33 @@ Proof.
   - apply Nat.leb_le. lia.
 Qed.
 
-Lemma cancel_ok : forall s arr acc o s' e, good s arr acc -> step s o = (s', e) -> chk_cancel s arr acc o e s' = true.
+Lemma cancel_ok : forall s arr acc o s' e, good s arr acc -> step s o = (s', e) -> chk_cancel (gone s) s arr acc o e s' = true.
 Proof.
   intros s arr acc o s' e G H. destruct o as [b| |n q|n|us]; try reflexivity.
   pose proof (cancel_in_backlog s us) as K. rewrite H in K.
-  destruct K as [_ [_ [_ [[c [-> [_ Hc]]] [Hz _]]]]].
-  unfold chk_cancel. apply forallb_forall. intros u Hu. apply andb_true_iff. split; apply Nat.eqb_eq.
+  destruct K as [_ [_ [_ [Kc [_ [[c [-> [_ Hc]]] [Hz _]]]]]]].
+  unfold chk_cancel. rewrite Kc, zl_eqb_refl, andb_true_r.
+  apply forallb_forall. intros u Hu. apply andb_true_iff. split; apply Nat.eqb_eq.
   - rewrite <- (Hc u Hu). unfold n_cancel; simpl. lia.
   - apply Hz; exact Hu.
 Qed.
 
-Lemma bystander_ok : forall s arr acc o s' e, good s arr acc -> step s o = (s', e) -> chk_bystander s arr acc o e s' = true.
+Lemma bystander_ok : forall s arr acc o s' e, good s arr acc -> step s o = (s', e) -> chk_bystander (gone s) s arr acc o e s' = true.
 Proof.
   intros s arr acc o s' e G H. destruct o as [b| |n q|n|us]; try reflexivity.
   pose proof (cancel_in_backlog s us) as K. rewrite H in K.
-  destruct K as [Hb [Hi [Hq [[c [-> [Hn _]]] _]]]].
-  unfold chk_bystander. rewrite Hb, Hi, Hq, inq_eqb_refl, qs_eqb_refl, bl_eqb_refl. simpl.
+  destruct K as [Hb [Hi [Hq [_ [Hg [[c [-> [Hn _]]] _]]]]]].
+  unfold chk_bystander. rewrite Hb, Hi, Hq, Hg, inq_eqb_refl, qs_eqb_refl, bl_eqb_refl, set_eqb_refl. simpl.
   rewrite andb_true_r. apply forallb_forall. intros u Hu. apply zmem_In. apply Hn; exact Hu.
 Qed.
 
-Lemma register_ok : forall s arr acc o s' e, good s arr acc -> step s o = (s', e) -> chk_register s arr acc o e s' = true.
+Lemma register_ok : forall s arr acc o s' e, good s arr acc -> step s o = (s', e) -> chk_register (gone s) s arr acc o e s' = true.
 Proof.
   intros s arr acc o s' e [Hi _] H. destruct o as [b| |n q|n|us]; try reflexivity.
   pose proof (register_relays_all s n q Hi) as K. rewrite H in K.
-  destruct K as [He [Hb [_ [_ [_ [Hq Hl]]]]]].
-  unfold chk_register. rewrite Hb, Hq, Hl, bl_eqb_refl, inq_eqb_refl. simpl. rewrite Z.eqb_refl.
-  rewrite !andb_true_r. subst e. unfold key_list.
+  destruct K as [He [Hb [_ [_ [_ [Hq [Hl [Hg _]]]]]]]].
+  unfold chk_register. rewrite Hb, Hq, Hl, Hg, bl_eqb_refl, inq_eqb_refl, zmem_gdel. simpl. rewrite Z.eqb_refl.
+  simpl. rewrite !andb_true_r. subst e. unfold key_list.
   destruct (alook n (backlog s)) as [l1|]; destruct (n =? star);
     try (destruct (alook star (backlog s)) as [l2|]); simpl;
     rewrite ?Z.eqb_refl, ?app_nil_r, ?zl_eqb_refl; reflexivity.
@@ -125,12 +147,12 @@ Qed.
 Lemma filter_nowarn_fail : forall l, filter (fun x => match x with OWarn _ => false | _ => true end) (map OFail l) = map OFail l.
 Proof. intros l; induction l as [|x l IH]; simpl; [reflexivity | rewrite IH; reflexivity]. Qed.
 
-Lemma unregister_ok : forall s arr acc o s' e, good s arr acc -> step s o = (s', e) -> chk_unregister s arr acc o e s' = true.
+Lemma unregister_ok : forall s arr acc o s' e, good s arr acc -> step s o = (s', e) -> chk_unregister (gone s) s arr acc o e s' = true.
 Proof.
   intros s arr acc o s' e [Hi _] H. destruct o as [b| |n q|n|us]; try reflexivity.
   pose proof (unregister_fails_exactly s n Hi) as K. rewrite H in K.
-  destruct K as [He [Hb [Hq [_ [_ [_ Hinq]]]]]].
-  unfold chk_unregister. rewrite Hb, Hq, Hinq, bl_eqb_refl, qs_eqb_refl, inq_eqb_refl. subst e.
+  destruct K as [He [Hb [Hq [_ [_ [_ [Hinq [Hg _]]]]]]]].
+  unfold chk_unregister. rewrite Hb, Hq, Hinq, Hg, bl_eqb_refl, qs_eqb_refl, inq_eqb_refl, zmem_gadd, Z.eqb_refl. subst e.
   rewrite filter_app, filter_nowarn_fail.
   destruct (alook n (queues s)); simpl; rewrite outs_eqb_refl; reflexivity.
 Qed.
@@ -139,28 +161,50 @@ Lemma rr_no_sched : forall qids us i,
   flat_map (fun x => match x with OSched us => us | _ => [] end) (rr qids i us) = [].
 Proof. intros qids us; induction us as [|x us IH]; intros i; simpl; [reflexivity | apply IH]. Qed.
 
-Lemma fwd_groups_no_sched : forall qs g bl bl' o,
-  fwd_groups qs bl g = (bl', o) -> flat_map (fun x => match x with OSched us => us | _ => [] end) o = [].
+Definition scheds (o : list out) : list Z := flat_map (fun x => match x with OSched us => us | _ => [] end) o.
+
+Lemma sift_no_sched : forall us cl k cl' o, sift cl us = (k, cl', o) -> scheds o = [].
 Proof.
-  intros qs g; induction g as [|[n us] g IH]; intros bl bl' o H; simpl in H.
-  - injection H as <- <-. reflexivity.
-  - destruct (fwd_group qs bl n us) as [bl1 o1] eqn:E1. destruct (fwd_groups qs bl1 g) as [bl2 o2] eqn:E2.
-    injection H as <- <-. rewrite flat_map_app, (IH _ _ _ E2), app_nil_r.
-    unfold fwd_group in E1. destruct (alook n qs); [injection E1 as <- <-; reflexivity|].
-    destruct (negb (is_nil qs) && (n =? star)); injection E1 as <- <-; [apply rr_no_sched | reflexivity].
+  intros us; induction us as [|x us IH]; intros cl k cl' o H; simpl in H.
+  - injection H as <- <- <-. reflexivity.
+  - destruct (zmem x cl).
+    + destruct (sift (remove1 x cl) us) as [[k1 c1] o1] eqn:E1. injection H as <- <- <-. simpl. eapply IH; eauto.
+    + destruct (sift cl us) as [[k1 c1] o1] eqn:E1. injection H as <- <- <-. eapply IH; eauto.
+Qed.
+
+Lemma scheds_map_OFail : forall l, scheds (map OFail l) = [].
+Proof. intros l; induction l as [|x l IH]; simpl; [reflexivity | exact IH]. Qed.
+
+Lemma fwd_groups_no_sched : forall qs gn g bl cl bl' cl' o,
+  fwd_groups qs gn bl cl g = (bl', cl', o) -> scheds o = [].
+Proof.
+  intros qs gn g; induction g as [|[n us] g IH]; intros bl cl bl' cl' o H; simpl in H.
+  - injection H as <- <- <-. reflexivity.
+  - destruct (fwd_group qs gn bl cl n us) as [[bl1 cl1] o1] eqn:E1.
+    destruct (fwd_groups qs gn bl1 cl1 g) as [[bl2 cl2] o2] eqn:E2.
+    injection H as <- <- <-. unfold scheds in *. rewrite flat_map_app, (IH _ _ _ _ _ E2), app_nil_r.
+    unfold fwd_group in E1. destruct (sift cl us) as [[k c1] o0] eqn:Es.
+    pose proof (sift_no_sched _ _ _ _ _ Es) as S0. unfold scheds in S0.
+    destruct (is_nil k); [injection E1 as <- <- <-; exact S0|].
+    destruct (alook n qs); [injection E1 as <- <- <-; rewrite flat_map_app, S0; reflexivity|].
+    destruct (negb (is_nil qs) && (n =? star));
+      [injection E1 as <- <- <-; rewrite flat_map_app, S0; apply rr_no_sched|].
+    destruct (zmem n gn); injection E1 as <- <- <-; [|exact S0].
+    rewrite flat_map_app, S0. apply scheds_map_OFail.
 Qed.
 
 Lemma no_sched_map_OFail : forall l, forallb (fun x => match x with OSched _ => false | _ => true end) (map OFail l) = true.
 Proof. intros l; induction l as [|x l IH]; simpl; [reflexivity | exact IH]. Qed.
 
-Lemma sched_ok : forall s arr acc o s' e, good s arr acc -> step s o = (s', e) -> chk_sched s arr acc o e s' = true.
+Lemma sched_ok : forall s arr acc o s' e, good s arr acc -> step s o = (s', e) -> chk_sched (gone s) s arr acc o e s' = true.
 Proof.
   intros s arr acc o s' e _ H. destruct o as [b| |n q|n|us]; simpl in H.
   - injection H as <- <-. reflexivity.
   - unfold drain in H.
-    destruct (fwd_groups (queues s) (backlog s) (collect (concat (inq s)))) as [bl o] eqn:E.
+    destruct (fwd_groups (queues s) (gone s) (backlog s) (clist s) (collect (concat (inq s)))) as [[bl cl] o] eqn:E.
     injection H as <- <-. unfold chk_sched. simpl. rewrite qs_eqb_refl, andb_true_r.
-    rewrite flat_map_app, (fwd_groups_no_sched _ _ _ _ _ E). simpl.
+    pose proof (fwd_groups_no_sched _ _ _ _ _ _ _ _ E) as NS. unfold scheds in NS.
+    rewrite flat_map_app, NS. simpl.
     destruct (normal (concat (inq s))) eqn:En; simpl; [reflexivity|].
     rewrite app_nil_r. apply (zl_eqb_refl (z :: l)).
   - unfold register, relay_key in H.
@@ -175,7 +219,7 @@ Qed.
 
 Lemma inv_no_wait : forall s, inv s -> no_wait s = true.
 Proof.
-  intros s [Hb Hq Hr Hs]. unfold no_wait. apply andb_true_iff. split.
+  intros s [Hb Hq Hr Hs _ _]. unfold no_wait. apply andb_true_iff. split.
   - apply forallb_forall. intros [n q] Hin. simpl.
     assert (alook n (queues s) <> None).
     { intros Hn. apply alook_none_notin in Hn. apply Hn. apply in_map_iff. exists (n, q). auto. }
@@ -183,14 +227,44 @@ Proof.
   - destruct (queues s) eqn:E; [reflexivity|]. simpl. rewrite Hs; [reflexivity | congruence].
 Qed.
 
-Lemma nowait_ok : forall s arr acc o s' e, good s arr acc -> step s o = (s', e) -> chk_nowait s arr acc o e s' = true.
+Lemma nowait_ok : forall s arr acc o s' e, good s arr acc -> step s o = (s', e) -> chk_nowait (gone s) s arr acc o e s' = true.
 Proof. intros s arr acc o s' e [Hi _] H. apply inv_no_wait. eapply step_inv; eauto. Qed.
+
+Lemma inv_no_wait_gone : forall s, inv s -> no_wait_gone (gone s) s = true.
+Proof.
+  intros s [_ _ _ _ Hgb Hgq]. unfold no_wait_gone. apply forallb_forall. intros n Hn.
+  rewrite (Hgb n Hn), (Hgq n Hn). reflexivity.
+Qed.
+
+Lemma nowait_gone_ok : forall s arr acc o s' e, good s arr acc -> step s o = (s', e) -> chk_nowait_gone (gone s) s arr acc o e s' = true.
+Proof.
+  intros s arr acc o s' e [Hi _] H. unfold chk_nowait_gone. rewrite <- (gone_after_step _ _ _ _ H).
+  apply inv_no_wait_gone. eapply step_inv; eauto.
+Qed.
+
+Lemma cancel_queue_ok : forall s arr acc o s' e, good s arr acc -> step s o = (s', e) -> chk_cancel_queue (gone s) s arr acc o e s' = true.
+Proof.
+  intros s arr acc o s' e [Hi _] H. destruct o as [b| |n q|n|us]; unfold chk_cancel_queue.
+  - simpl in H. injection H as <- <-. apply zl_eqb_refl.
+  - simpl in H. unfold drain in H.
+    destruct (fwd_groups (queues s) (gone s) (backlog s) (clist s) (collect (concat (inq s)))) as [[bl cl] o] eqn:E.
+    injection H as <- <-. apply forallb_forall. intros u _.
+    destruct (fwd_groups_counts u _ _ _ _ _ _ _ _ E) as [_ [A2 A3]]. rewrite collect_tot in A2.
+    pose proof (sched_tail_counts u (concat (inq s))) as T. unfold ended in T.
+    simpl. rewrite n_cancel_app. unfold n_inq.
+    apply andb_true_iff. split; apply Nat.eqb_eq; lia.
+  - pose proof (register_relays_all s n q Hi) as K. rewrite H in K.
+    destruct K as [_ [_ [_ [_ [_ [_ [_ [_ Hc]]]]]]]]. rewrite Hc. apply zl_eqb_refl.
+  - pose proof (unregister_fails_exactly s n Hi) as K. rewrite H in K.
+    destruct K as [_ [_ [_ [_ [_ [_ [_ [_ Hc]]]]]]]]. rewrite Hc. apply zl_eqb_refl.
+  - reflexivity.
+Qed.
 
 (* for every history: the model's trace agrees with itself and satisfies every clause *)
 Theorem clauses_hold_in_model : forall ops, forallb (fun b => b) (relay_row ops (trace init ops)) = true.
 Proof.
   intros ops. unfold relay_row, clause_checks. cbn [map app forallb].
-  rewrite obs_eqb_refl.
+  rewrite obs_eqb_refl. change (@nil Z) with (gone init).
   rewrite (walk_model _ fwd_once_ok ops init [] [] good_init).
   rewrite (walk_model _ place_ok ops init [] [] good_init).
   rewrite (walk_model _ final_ok ops init [] [] good_init).
@@ -200,6 +274,8 @@ Proof.
   rewrite (walk_model _ unregister_ok ops init [] [] good_init).
   rewrite (walk_model _ sched_ok ops init [] [] good_init).
   rewrite (walk_model _ nowait_ok ops init [] [] good_init).
+  rewrite (walk_model _ cancel_queue_ok ops init [] [] good_init).
+  rewrite (walk_model _ nowait_gone_ok ops init [] [] good_init).
   reflexivity.
 Qed.
 
